@@ -56,6 +56,8 @@ static void expand(void)
         if (n1 < LIMIT - 34 && n2 > 2 && (n1 + n2 < LIMIT - 1)) continue; /* far from the limit: covered by the small-history pass below */
         size_t req[3] = {(size_t)n1, (size_t)n2, (size_t)n3s[n3i]};
         union { ascon_hkdf_state_t h; ascon_hkdfa_state_t ha; } st;
+        /* every other history runs on an object with a past: extracted with other inputs and partly expanded (extract is also the re-initialisation) */
+        { static unsigned past; uint8_t t[40]; if (past++ & 1) { if (A) { ascon_hkdfa_extract(&st.ha, salt, 9, key, 20); ascon_hkdfa_expand(&st.ha, info, 3, t, 33); } else { ascon_hkdf_extract(&st.h, salt, 9, key, 20); ascon_hkdf_expand(&st.h, info, 3, t, 33); } } else memset(&st, 0xEE, sizeof st); }
         if (A) ascon_hkdfa_extract(&st.ha, key, 33, salt, 9); else ascon_hkdf_extract(&st.h, key, 33, salt, 9);
         size_t served = 0; int refused = 0;
         for (int c = 0; c < 3; c++) {
@@ -80,6 +82,8 @@ static void expand(void)
     for (int n1 = 0; n1 <= m; n1++) for (int n2 = 0; n2 <= m; n2 += (tier ? 1 : 3)) for (int n3 = 0; n3 <= 33; n3 += 11) {
         size_t req[3] = {(size_t)n1, (size_t)n2, (size_t)n3}, served = 0;
         union { ascon_hkdf_state_t h; ascon_hkdfa_state_t ha; } st;
+        /* every other history runs on an object with a past: extracted with other inputs and partly expanded (extract is also the re-initialisation) */
+        { static unsigned past; uint8_t t[40]; if (past++ & 1) { if (A) { ascon_hkdfa_extract(&st.ha, salt, 9, key, 20); ascon_hkdfa_expand(&st.ha, info, 3, t, 33); } else { ascon_hkdf_extract(&st.h, salt, 9, key, 20); ascon_hkdf_expand(&st.h, info, 3, t, 33); } } else memset(&st, 0xEE, sizeof st); }
         if (A) ascon_hkdfa_extract(&st.ha, key, 33, salt, 9); else ascon_hkdf_extract(&st.h, key, 33, salt, 9);
         for (int c = 0; c < 3; c++) {
             uint8_t *o = hx_buf(req[c]);
